@@ -41,8 +41,11 @@ def cppPlain (c : Char) : Option (List Nat × CppState) :=
   else if c = '"' || c = '\n' then none
   else some (utf8 c.toNat, .normal)
 
-/-- one character: the bytes that are complete now and the next state; `none` = not a well-defined literal. The simple escapes
-    are Python's (`simpleEsc`: n t r a b f v \ ' ") and `\?`. -/
+/-- the simple-escape-sequences of ISO C++ ([lex.ccon]: \n \t \v \b \r \f \a \\ \? \' \") and the byte each denotes -/
+def cppSimple : List (Char × Nat) :=
+  [('n', 10), ('t', 9), ('v', 11), ('b', 8), ('r', 13), ('f', 12), ('a', 7), ('\\', 92), ('?', 63), ('\'', 39), ('"', 34)]
+
+/-- one character: the bytes that are complete now and the next state; `none` = not a well-defined literal. -/
 def cppStep : CppState → Char → Option (List Nat × CppState)
   | .normal, c => cppPlain c
   | .backslash, c =>
@@ -52,9 +55,9 @@ def cppStep : CppState → Char → Option (List Nat × CppState)
       if c = 'x' then some ([], .hexG 0 false)
       else if c = 'u' then some ([], .ucn 4 0)
       else if c = 'U' then some ([], .ucn 8 0)
-      else match simpleEsc c with
-        | some e => some ([e.toNat], .normal)
-        | none => if c = '?' then some ([63], .normal) else none
+      else match cppSimple.lookup c with
+        | some b => some ([b], .normal)
+        | none => none
   | .oct v n, c =>
     match octVal c with
     | some d =>
